@@ -258,6 +258,11 @@ func fitValue(rng *rand.Rand, s avro.Schema, g *GT, v reflect.Value) {
 				v.Field(i).Set(reflect.Zero(v.Field(i).Type())) // not covered by the schema
 				continue
 			}
+			if fieldOmitEmpty(f) && v.Field(i).CanSet() && rng.Intn(3) == 0 {
+				// the empty value of an omitempty field: written as the null branch wherever null sits
+				v.Field(i).Set(reflect.Zero(v.Field(i).Type()))
+				continue
+			}
 			fitValue(rng, fs, f.T, v.Field(i))
 		}
 	}
